@@ -29,6 +29,9 @@ pub const SLOT_GONE: u64 = 56;
 pub const CTL_READY: u64 = 0;
 pub const CTL_QUIT: u64 = 8;
 pub const CTL_ACK_SIGS: u64 = 16;
+/// harness -> target: map `late_regions` now; target -> harness: done
+pub const CTL_MAP_LATE: u64 = 24;
+pub const CTL_LATE_DONE: u64 = 32;
 
 pub fn slot_addr(i: usize) -> u64 {
     CTL_ADDR + SLOT_BASE + i as u64 * SLOT_SIZE
@@ -46,6 +49,10 @@ pub struct Spec {
     pub main_name: Option<Vec<u8>>,
     /// install logging handlers for these signals (heartbeat threads receive them)
     pub handle_signals: Vec<i32>,
+    /// regions that are only mapped when the harness asks for it (CTL_MAP_LATE): a target whose
+    /// address space changes between two requests
+    #[serde(default)]
+    pub late_regions: Vec<Region>,
 }
 
 #[derive(Serialize, Deserialize, Clone, Debug)]
